@@ -47,7 +47,7 @@ pub const SIGN_DELAY: i64 = 2;
 /// neighbouring epoch produces signatures the reference rejects.
 pub fn registration_parameters(r: i64) -> ProtocolParameters {
     let r = r.max(0) as u64;
-    ProtocolParameters { k: 5, m: 100 + (r % 3) * 10, phi_f: 0.65 + 0.05 * ((r % 4) as f64) }
+    ProtocolParameters { k: 5, m: 30 + (r % 3) * 3, phi_f: 0.80 + 0.05 * ((r % 4) as f64) }
 }
 
 #[derive(Clone, Debug)]
@@ -97,6 +97,9 @@ pub struct RefState {
     pub settings_served_stale: u64,
     pub calls_failed_down: u64,
     pub sigs_verified: u64,
+    /// closed registrations of past epochs (they cannot change any more): epoch of registration →
+    /// (signer builder, encoded aggregate verification key)
+    pub closed: BTreeMap<i64, Option<Arc<(SignerBuilder, String)>>>,
 }
 
 pub struct RefAgg {
@@ -141,11 +144,26 @@ impl RefAgg {
         st.regs.get(&r).map(|m| m.values().cloned().collect()).unwrap_or_default()
     }
 
-    pub fn encode_avk(signers: &[SignerWithStake], params: &ProtocolParameters) -> Option<String> {
-        let b = SignerBuilder::new(signers, params).ok()?;
-        let avk: ProtocolAggregateVerificationKeyForConcatenation =
-            b.compute_aggregate_verification_key().to_concatenation_aggregate_verification_key().to_owned().into();
-        avk.to_json_hex().ok()
+    /// The key registration of the signers registered during epoch `r`, closed with the stake
+    /// distribution and the parameters of that epoch. `current` is the running epoch: only
+    /// registrations of earlier epochs are final and can be memoised.
+    pub fn closed_registration(st: &mut RefState, r: i64, current: i64) -> Option<Arc<(SignerBuilder, String)>> {
+        if r < current {
+            if let Some(c) = st.closed.get(&r) {
+                return c.clone();
+            }
+        }
+        let signers = Self::signers_registered_during(st, r);
+        let built = SignerBuilder::new(&signers, &registration_parameters(r)).ok().and_then(|b| {
+            let avk: ProtocolAggregateVerificationKeyForConcatenation =
+                b.compute_aggregate_verification_key().to_concatenation_aggregate_verification_key().to_owned().into();
+            let avk = avk.to_json_hex().ok()?;
+            Some(Arc::new((b, avk)))
+        });
+        if r < current {
+            st.closed.insert(r, built.clone());
+        }
+        built
     }
 
     /// registration made by the harness for one of the *other* fixture signers
@@ -304,10 +322,9 @@ impl SignaturePublisher for RefAgg {
                 return Err(unreachable_error("register signature"));
             }
             let step = st.step;
-            let mut finding = |st: &mut RefState, key: &'static str, what: String| st.findings.push(Finding { key, what, step });
+            let finding = |st: &mut RefState, key: &'static str, what: String| st.findings.push(Finding { key, what, step });
             let party = signature.party_id.clone();
             let in_force = Self::signers_in_force(st, e);
-            let params = registration_parameters(e - SIGN_DELAY);
             let mut accepted = false;
             if !in_force.iter().any(|s| s.party_id == party) {
                 finding(
@@ -321,9 +338,9 @@ impl SignaturePublisher for RefAgg {
                 );
             } else {
                 st.sigs_verified += 1;
-                match SignerBuilder::new(&in_force, &params) {
-                    Err(err) => finding(st, "C20/reference-signer-set-unusable", format!("epoch {e}: {err:?}")),
-                    Ok(b) => match b.build_multi_signer().verify_single_signature(protocol_message, signature) {
+                match Self::closed_registration(st, e - SIGN_DELAY, e) {
+                    None => finding(st, "C20/reference-signer-set-unusable", format!("epoch {e}: no key registration can be built")),
+                    Some(c) => match c.0.build_multi_signer().verify_single_signature(protocol_message, signature) {
                         Ok(()) => accepted = true,
                         Err(err) => finding(
                             st,
@@ -345,11 +362,10 @@ impl SignaturePublisher for RefAgg {
                 );
             }
             // the signed message must commit to what the aggregator derives for the next epoch
-            let next = Self::signers_registered_during(st, e - SIGN_DELAY + 1);
             let next_params = registration_parameters(e - SIGN_DELAY + 1);
-            if let Some(expected) = Self::encode_avk(&next, &next_params) {
+            if let Some(next) = Self::closed_registration(st, e - SIGN_DELAY + 1, e) {
                 let got = protocol_message.get_message_part(&ProtocolMessagePartKey::NextAggregateVerificationKey);
-                if got != Some(&expected) {
+                if got != Some(&next.1) {
                     finding(
                         st,
                         "C20/signed-message-commits-to-wrong-next-aggregate-key",
